@@ -40,6 +40,112 @@ type C11Case struct {
 	Salt     int     `json:"salt"`
 	Private  bool    `json:"private_types"` // each goroutine additionally validates a type nobody else uses
 	Reps     int     `json:"reps,omitempty"`
+	// Fresh: after the pool phase, this many rounds in each of which a struct type nobody has seen yet
+	// carries rules under two or three tag names nobody has used yet in this process; two goroutines per
+	// tag name validate a value of it under "their" name, all released at the same moment (first use
+	// of a type, first use of several tag names, all at once).  Every result is compared with the
+	// reference walker; the same calls are then repeated one after the other.
+	Fresh int `json:"fresh_rounds,omitempty"`
+	// Hot: "plain" / "collections": the bank entries are the whole pool (see genC11Case); with
+	// "collections" every second one is a top-level slice, every third a map of the bank type
+	Hot string `json:"hot,omitempty"`
+}
+
+// freshCounter: process-wide, so that no tag name and no type of a fresh round is ever used twice.
+var freshCounter int64
+
+// freshRoundCalls builds the calls of one round: one struct type, k tag names, different rules under each.
+func freshRoundCalls(n int64, k, wide int) []*Call {
+	names := make([]string, k)
+	for j := range names {
+		names[j] = fmt.Sprintf("fu%d%c", n, 'a'+j)
+	}
+	aRules := []string{"to=1~2", "ge=5", "required,prefix=zz"}
+	bRules := []string{"le=1", "in=(7/8)", "gt=50"}
+	ty := desc.T{K: "struct"}
+	val := desc.V{}
+	fa := desc.F{Name: "A", T: desc.Scalar("string"), Tags: map[string]string{}}
+	fb := desc.F{Name: "B", T: desc.Scalar("int"), Tags: map[string]string{}}
+	for j, nm := range names {
+		fa.Tags[nm] = aRules[j] + "|" + nm + "A"
+		fb.Tags[nm] = bRules[j] + "|" + nm + "B"
+	}
+	ty.Fields = append(ty.Fields, fa)
+	val.E = append(val.E, desc.Str("abc"))
+	for i := 0; i < wide; i++ {
+		f := desc.F{Name: fmt.Sprintf("W%03d", i), T: desc.Scalar("string"), Tags: map[string]string{}}
+		for j, nm := range names {
+			if (i+j)%3 != 0 {
+				f.Tags[nm] = fmt.Sprintf("required|%sW%d", nm, i)
+			}
+		}
+		ty.Fields = append(ty.Fields, f)
+		val.E = append(val.E, desc.V{})
+	}
+	ty.Fields = append(ty.Fields, fb)
+	val.E = append(val.E, desc.V{I: 3})
+	var out []*Call
+	for _, nm := range names {
+		out = append(out, &Call{S: &StructCase{Root: desc.Ptr(ty), Val: desc.V{E: []desc.V{val}}, Tag: nm, Entry: "ValidateStruct"}})
+	}
+	return out
+}
+
+// runC11Fresh: see C11Case.Fresh.
+func runC11Fresh(c *C11Case) (string, int) {
+	old := runtime.GOMAXPROCS(c.Procs)
+	defer runtime.GOMAXPROCS(old)
+	for r := 0; r < c.Fresh; r++ {
+		n := atomic.AddInt64(&freshCounter, 1)
+		k := 2 + (c.Salt+r)%2
+		wide := []int{0, 0, 30, 120}[(c.Salt/3+r)%4]
+		calls := freshRoundCalls(n, k, wide)
+		per := 2
+		G := len(calls) * per
+		preps := make([]*prepared, G)
+		outs := make([]outcome, G)
+		for g := range preps {
+			preps[g] = calls[g%len(calls)].prepare()
+		}
+		var ready int32
+		var wg sync.WaitGroup
+		yield := c.Procs < G
+		for g := 0; g < G; g++ {
+			wg.Add(1)
+			go func(g int) {
+				defer wg.Done()
+				atomic.AddInt32(&ready, 1)
+				for atomic.LoadInt32(&ready) < int32(G) {
+					if yield {
+						runtime.Gosched()
+					}
+				}
+				outs[g] = preps[g].run()
+			}(g)
+		}
+		if done, _, stacks := waitWatchdog(&wg, 180*time.Second); !done {
+			if strings.Contains(stacks, "protoc-go-valid/valid.") && strings.Contains(stacks, "sync.(*") {
+				return "deadlock in a fresh-type round: after 180s the workers are still blocked inside the library:\n" + firstLines(stacks, 60), r
+			}
+			return "INCONCLUSIVE: watchdog fired in a fresh-type round but the workers are not blocked in the library", r
+		}
+		for g := 0; g < G; g++ {
+			call := calls[g%len(calls)]
+			res, _ := call.predict()
+			if m := call.againstModel(res, outs[g]); m != "" {
+				return fmt.Sprintf("fresh-type round %d (%d fields, %d new tag names, first use by %d goroutines at once): the call under tag %q disagrees with the reference walker: %s", r, wide+2, k, G, call.S.Tag, m), r
+			}
+		}
+		// ... and the same calls afterwards, one after the other
+		for _, call := range calls {
+			o := call.prepare().run()
+			res, _ := call.predict()
+			if m := call.againstModel(res, o); m != "" {
+				return fmt.Sprintf("fresh-type round %d: AFTER the concurrent first use the call under tag %q disagrees with the reference walker: %s", r, call.S.Tag, m), r
+			}
+		}
+	}
+	return "", c.Fresh
 }
 
 type c11Facts struct {
@@ -52,7 +158,24 @@ type c11Facts struct {
 func (c *C11Case) pool() []*Call {
 	out := append([]*Call(nil), c.Pool...)
 	for i := 0; i < c.BankN; i++ {
-		out = append(out, bankCall(c.BankFrom+i, c.BankTag))
+		bc := bankCall(c.BankFrom+i, c.BankTag)
+		if c.Hot == "collections" && i%2 == 1 {
+			elem := *bc.S.Root.Elem
+			one := bc.S.Val.E[0]
+			other := desc.V{E: []desc.V{desc.Str(""), {I: 100}}}
+			if i%3 == 0 {
+				bc.S.Root = desc.Map(desc.Scalar("string"), desc.Ptr(elem))
+				bc.S.Val = desc.V{K: []desc.V{desc.Str("k1")}, E: []desc.V{{E: []desc.V{one}}}}
+			} else {
+				bc.S.Root = desc.Slice(elem)
+				bc.S.Val = desc.V{E: []desc.V{one, other, one}}
+			}
+			bc.S.Entry = "Struct"
+			if bc.S.Tag != "" {
+				bc.S.Entry = "ValidateStruct"
+			}
+		}
+		out = append(out, bc)
 	}
 	return out
 }
@@ -239,6 +362,7 @@ func genC11Case(t *rapid.T) *C11Case {
 	if c.G > 32 && c.Len > 60 {
 		c.Len = 60
 	}
+	c.Fresh = rapid.SampledFrom([]int{0, 10, 30, 80}).Draw(t, "freshRounds")
 	c.BankFrom = rapid.IntRange(0, bankSize-1).Draw(t, "bankFrom")
 	c.BankN = rapid.IntRange(0, 30).Draw(t, "bankN")
 	if c.Cache == "lru512" && rapid.Bool().Draw(t, "exceedDefault") {
@@ -246,6 +370,23 @@ func genC11Case(t *rapid.T) *C11Case {
 		c.Len = ev.Pick(1500, 4000)
 	}
 	n := rapid.IntRange(2, 10).Draw(t, "poolSize")
+	if rapid.IntRange(0, 7).Draw(t, "hotLoop") == 5 {
+		// a hot loop: a few small, cached types and nothing else, validated by several goroutines tens of
+		// thousands of times each (a lock-free shortcut in front of the cache that is wrong once in 10^5
+		// calls is wrong here)
+		n = 0
+		c.Cache = rapid.SampledFrom([]string{"lru512", "lru8", "syncmap"}).Draw(t, "hotCache")
+		c.BankN = rapid.IntRange(2, 4).Draw(t, "hotTypes")
+		c.G = rapid.SampledFrom([]int{3, 4, 8, 16}).Draw(t, "hotGoroutines")
+		c.Len = ev.Pick(20000, 100000)
+		c.Procs = rapid.SampledFrom([]int{16, 4, 8}).Draw(t, "hotProcs")
+		c.Private, c.Fresh = false, 0
+		if rapid.Bool().Draw(t, "hotCollections") {
+			c.Hot = "collections" // the same, with top-level slices / maps of the small types
+		} else {
+			c.Hot = "plain"
+		}
+	}
 	for i := 0; i < n; i++ {
 		switch rapid.IntRange(0, 9).Draw(t, "specKind") {
 		case 8: // exported helpers run next to the validations (shared buffer pool), incl. the JSON dumper's error path
@@ -325,12 +466,20 @@ func c11Sample(c *C11Case) interface{} {
 func c11Once(t ev.TB, c *C11Case, sub string) {
 	ev.WriteReplay("C11", "race-detector", c, "the race detector reported a data race (or the process died) while this case was running; re-run it under -race")
 	msg, facts := runC11(c)
+	if msg == "" && c.Fresh > 0 {
+		var rounds int
+		msg, rounds = runC11Fresh(c)
+		ev.ClassN("fresh-type rounds (new type, new tag names, first use concurrent)", int64(rounds))
+	}
 	ev.ClearReplay()
 	if strings.HasPrefix(msg, "INCONCLUSIVE") {
 		inconclusive(msg)
 	}
 	ev.Class(fmt.Sprintf("goroutines=%d", facts.goroutines))
 	ev.Class("cache=" + c.Cache)
+	if c.Hot != "" {
+		ev.Class("hot loop over a few cached types (" + c.Hot + ")")
+	}
 	ev.ClassN("concurrent calls", int64(facts.calls))
 	ev.ClassN("cache evictions during runs", facts.evictions)
 	if facts.sharedTypeConcurrently {
